@@ -208,6 +208,7 @@ func (ip *FileIP) CreateFifo() {
 	} else {
 		_, err := exec.Command("bash", "-c", cmd).Output()
 		CheckWithMsg(err, "Could not execute command: "+cmd)
+		verifPoint("fifo.created", ip.path, 0)
 	}
 
 	ip.lock.Unlock()
@@ -355,6 +356,7 @@ func (ip *FileIP) WriteAuditLogToFile() {
 	ip.createDirs("")
 	writeErr := ioutil.WriteFile(ip.AuditFilePath(), auditInfoJSON, 0644)
 	CheckWithMsg(writeErr, "Could not write audit file: "+ip.Path())
+	verifPoint("audit.file_written", ip.path, 0)
 }
 
 // AuditInfo returns the AuditInfo struct for the FileIP
